@@ -1062,6 +1062,18 @@ def _map_insert(ex, mp, k, v):
     return Some(old)
 
 
+@model(r'<(HashMap|BTreeMap)<.+> as Index(Mut)?<.+>>::index(_mut)?')
+def m_map_index(ex, c, a, m):
+    """map[key]: a reference to the value, panics when the key is missing"""
+    mp = d(a[0])
+    if not isinstance(mp, SymMap):
+        raise Unmodelled('map receiver %r in %s' % (mp, c))
+    i = _map_find(ex, mp, as_S(a[1]))
+    if i is None:
+        raise Panic('no entry found for key', ex.cur_fn.short if ex.cur_fn else '')
+    return Ref(mp.items[i], 1)
+
+
 @model(r'(?:std::collections::)?(HashMap|HashSet|BTreeMap|BTreeSet)::<.+?>::(\w+)(::<.*>)?')
 def m_map(ex, c, a, m):
     kind, op = m.group(1), m.group(2)
